@@ -547,6 +547,17 @@ def run_history(seed, scratch: Path, rep: Report, *, nops, weights, checks, conc
         # a key of the right user but mangled password
         u = rng.choice([u for u in world.users if u['key'] is not None] or [None])
         if u is not None:
+            # a password that differs only by trailing NUL bytes is another password
+            for bad in (u['password'] + b'\x00', u['password'] + b'\x00\x00\x00'):
+                if len(u['password']) >= 64:
+                    break
+                try:
+                    await world.repo().unlock(password=bad, key=u['key'])
+                    viol('unlock_trailing_nul', 'a key made with the default (scrypt) KDF is unlocked by its password followed by NUL bytes: '
+                                                'PBKDF2-HMAC zero-pads short passwords, so pw and pw+NUL derive the same key', {'key_of': u['name']})
+                    break
+                except Exception:
+                    pass
             for bad in (u['password'] + b'x', u['password'][:-1], b'', u['password'][:64]):
                 if bad == u['password']:
                     continue
